@@ -111,6 +111,7 @@ func runIEEE(f lib.Flags, res *lib.Result, drv *lib.Driver) {
 			lines = append(lines, fa64Line(fr, mg, x, y))
 			codes = append(codes, b2s(eq && ok))
 			inputs = append(inputs, map[string]any{"op": "fa64", "fraction": fr, "margin": mg, "x": encFloat(x), "y": encFloat(y)})
+			roundingCases = append(roundingCases, rcase{Fr: fr, Mg: mg, X: x, Y: y, code: eq && ok})
 			tie.Count("fa64:" + map[bool]string{true: "exact-ops", false: "rounding"}[exactFloatOps(fr, mg, x, y)])
 		} else {
 			p := []float32{0.1, 10, 1, 100.00001, 50, 1e-3, 33.333332, 0}[g.r.Intn(8)]
@@ -145,6 +146,7 @@ func runIEEE(f lib.Flags, res *lib.Result, drv *lib.Driver) {
 			lines = append(lines, dp64Line(p, x, y))
 			codes = append(codes, b2s(eq && ok))
 			inputs = append(inputs, map[string]any{"op": "dp64", "p": float64(p), "x": x, "y": y})
+			roundingCases = append(roundingCases, rcase{DP: true, P: p, XD: x, YD: y, code: eq && ok})
 			tie.Count("dp64:" + map[bool]string{true: "exact-ops", false: "rounding"}[exactDP(p, x, y)])
 		}
 	}
